@@ -183,7 +183,7 @@ def r02_1(ctx) -> None:
     idx = u.param_names().index(invert)
     for name, want in (("builtins.max", "True"), ("builtins.min", "False")):
         pu = ctx.unit(name)
-        calls = [c for c in own_nodes(pu.node) if isinstance(c, ast.Call) and norm(c.func) == "_min_max"]
+        calls = [c for c in own_nodes(pu.node) if isinstance(c, ast.Call) and norm(c.func) == u.node.name]
         got = None
         if calls:
             got = {k.arg: norm(k.value) for k in calls[0].keywords}.get(invert)
@@ -413,7 +413,7 @@ def r02_4(ctx) -> None:
     # directions of the two public functions
     for name, want in (("heapq.nlargest", "False"), ("heapq.nsmallest", "True")):
         pu = ctx.unit(name)
-        calls = [c for c in own_nodes(pu.node) if isinstance(c, ast.Call) and norm(c.func) == "_largest"]
+        calls = [c for c in own_nodes(pu.node) if isinstance(c, ast.Call) and norm(c.func) == u.node.name]
         got = {k.arg: norm(k.value) for k in calls[0].keywords}.get(flag) if calls else None
         if calls and got is None and len(calls[0].args) >= 4:
             got = norm(calls[0].args[3])
